@@ -7,14 +7,15 @@ func init() {
 			Level: "model_checking",
 			Groups: []Group{{
 				PkgPath: "honnef.co/go/tools/lintcmd", PkgDir: "lintcmd", PkgName: "lintcmd",
-				Files: []string{"ignore.go"},
+				Files: []string{"ignore.go", "placement.go"},
 				Entries: []Entry{
-					{Fn: "Harness_C10_single", Tiers: "both", Reach: []string{"end"}, Bounds: "1 problem (2 files x 2 lines x 3 checks) x 1 directive (ignore|file-ignore, 2 lines, 45 check lists of 1-2 names incl. globs, wrong case, U1000, disabled and unknown checks; reason absent / present / preceded by an empty field); SA1000 and ST1000 enabled or disabled"},
+					{Fn: "Harness_C10_single", Tiers: "both", Reach: []string{"end"}, Bounds: "1 problem (2 files x 2 lines x 3 checks) x 1 directive (ignore|file-ignore, 2 lines, 70 check lists of 1-2 names incl. globs with *, ? and [...], wrong case, U1000, disabled and unknown checks; reason absent / present / preceded by an empty field); SA1000 and ST1000 enabled or disabled"},
+					{Fn: "Harness_C10_placement", Tiers: "both", Reach: []string{"end"}, Bounds: "11 placements of a //lint:ignore comment (above / at the end of a statement, inside longer comment blocks, doc comment, declaration block, above an if) x the problem on every line of the file; parsed by the real go/parser, attached by ast.NewCommentMap via lint.ParseDirectives, serialized by the runner"},
 					{Fn: "Harness_C10_pair", Tiers: "both", Reach: []string{"end"}, Bounds: "2 problems (same or different line, same or different check) x 1-2 directives in either order (6 lists, reason absent/present)"},
 				},
 			}},
 			Assumptions: []string{
-				"kernel only: attachment of comments to syntax nodes (ast.NewCommentMap) and U1000's own handling of ignores inside its graph are outside the claim",
+				"attachment of comments to syntax nodes is covered for the 11 placements of Harness_C10_placement only; //line-remapped positions and U1000's own handling of ignores inside its graph are outside the claim",
 				"a whitespace-only reason (trailing space) is outside the claim (the property does not say whether it counts as a reason)",
 				"the useless-directive clause is asserted only for lists of exact names (whether a glob 'names' an enabled check is not specified)",
 			},
